@@ -594,7 +594,44 @@ def r56(facts, res, R='R5.6'):
                                    'Shift': 'parses the input over [i, i+1), index := where that parse ended'}[kind])
 
 
+def r57(facts, res, R='R5.7'):
+    """lr_upto(.., laidx, end_laidx, ..) parses the lexemes in [laidx, end_laidx): `end_laidx` is exclusive.  Every round that
+    looks an action up has established that the running index differs from (is below) `end_laidx`.  With an inclusive bound
+    the replay of an Insert goes round once more with the inserted lexeme still as lookahead and a replayed Shift takes two
+    lexemes: the real stack ends up where the search never was."""
+    b = find_fn(facts, R, 'lr_upto')
+    tab, lookup, lh = arms(facts, R, b)
+    n = 0
+    bad = 0
+    for kind, ps in tab.items():
+        for p in ps:
+            n += 1
+            ok = False
+            for c, v in p.conds:
+                if not (isinstance(c, tuple) and c and c[0] == 'bin' and isinstance(v, int)):
+                    continue
+                ends = [x for x in (c[2], c[3]) if strip_ref(x) == ('param', 4)]
+                if not ends:
+                    continue
+                if (c[1] == 'Eq' and v == 0) or (c[1] == 'Ne' and v == 1):
+                    ok = True
+                if c[1] == 'Lt' and v == 1 and strip_ref(c[3]) == ('param', 4):
+                    ok = True
+                if c[1] == 'Le' and v == 0 and strip_ref(c[2]) == ('param', 4):
+                    ok = True          # !(end <= i)
+            if not ok:
+                bad += 1
+    if not n:
+        return res.lost(R, 'no round of lr_upto looks an action up')
+    if bad:
+        res.bad(R, 'end-exclusive', loc_of(b, lh), '%d of the %d ways through a round of lr_upto look an action up without having established that the running index is not `end_laidx`: the '
+                'bound is inclusive, one lexeme position too many is parsed' % (bad, n))
+    else:
+        res.ok(R, 'end-exclusive', loc_of(b, lh), 'every round that looks an action up has established index != end_laidx (%d ways)' % n)
+
+
 def run(facts, res):
+    r57(facts, res)
     r56(facts, res)
     r55(facts, res)
     r51(facts, res)
